@@ -3,6 +3,7 @@ CONSTANTS
   MaxOps = 4
   Groups = {"list"}
   Big = FALSE
+  Focus = ""
   Wide = FALSE
   ShipDsAdd = FALSE
   ShipMatPartial = FALSE
